@@ -65,8 +65,53 @@ def ll(a, f=qlist):
     a = [list(r) for r in a]
     return "[" + "; ".join(f(r) for r in a) + "]" if a else "(@nil (list _))"
 
+def _nonfinite(o, depth=0):
+    """description of the first non-finite numeric content of a generator's output, else None"""
+    import scipy.sparse as _sp
+    if depth > 4 or o is None or isinstance(o, (str, bool)):
+        return None
+    if _sp.issparse(o):
+        return _nonfinite(o.tocoo().data, depth + 1)
+    if not isinstance(o, np.ndarray):
+        for attr in ("payoff_array", "P", "csgraph"):
+            if hasattr(o, attr):
+                return _nonfinite(getattr(o, attr), depth + 1)
+        if hasattr(o, "players"):
+            return _nonfinite(tuple(o.players), depth + 1)
+        if hasattr(o, "polymatrix"):
+            return _nonfinite(tuple(o.polymatrix.values()), depth + 1)
+        if hasattr(o, "R") and hasattr(o, "Q") and hasattr(o, "beta"):
+            return _nonfinite((o.R, o.Q, o.beta), depth + 1)
+    if isinstance(o, (tuple, list)):
+        for v in o:
+            r = _nonfinite(v, depth + 1)
+            if r:
+                return r
+        return None
+    try:
+        a = np.asarray(o)
+    except Exception:
+        return None
+    if a.dtype != object and np.issubdtype(a.dtype, np.number) and not np.isfinite(a).all():
+        return "%d non-finite entries (nan/inf)" % int((~np.isfinite(a)).sum())
+    return None
+
 
 def run(ctx):
+    """never let a malformed implementation output crash the harness: it is reported as an oracle failure with the last call"""
+    state = {"last": None}
+    try:
+        _run(ctx, state)
+    except Exception as e:
+        import traceback as _tb
+        if state["last"] is not None:
+            ctx.fail("harness_exception_after_call", "the oracle could not process the output of this call: %r (%s)"
+                     % (e, _tb.format_exc().strip().splitlines()[-3].strip()[:120]), state["last"])
+        else:
+            raise
+
+
+def _run(ctx, state):
     import scipy.sparse as sp
     import quantecon as qe
     from quantecon.random import probvec, sample_without_replacement
@@ -81,6 +126,28 @@ def run(ctx):
                                        support_enumeration, pure_nash_brute, NormalFormGame)
     from quantecon.game_theory.random import random_polymatrix_game
     import quantecon.game_theory.game_generators.bimatrix_generators as bg
+    _plain = (int, float, str, bool, list, tuple, type(None), np.ndarray, np.generic)
+
+    def _guarded(fn, name):
+        def call(*args, **kwargs):
+            inp = {"call": name, "args": [a if isinstance(a, _plain) else repr(a)[:60] for a in args],
+                   "kwargs": {k: (v if isinstance(v, _plain) else repr(v)[:60]) for k, v in kwargs.items()}}
+            state["last"] = inp
+            out = fn(*args, **kwargs)
+            bad = _nonfinite(out)
+            if bad:
+                ctx.fail("nonfinite_output", "%s returns %s" % (name, bad), inp)
+            return out
+        call.__name__ = name
+        return call
+    probvec, sample_without_replacement = _guarded(probvec, "probvec"), _guarded(sample_without_replacement, "sample_without_replacement")
+    random_markov_chain, random_stochastic_matrix = _guarded(random_markov_chain, "random_markov_chain"), _guarded(random_stochastic_matrix, "random_stochastic_matrix")
+    random_discrete_dp, random_tournament_graph = _guarded(random_discrete_dp, "random_discrete_dp"), _guarded(random_tournament_graph, "random_tournament_graph")
+    random_game, covariance_game = _guarded(random_game, "random_game"), _guarded(covariance_game, "covariance_game")
+    random_pure_actions, random_mixed_actions = _guarded(random_pure_actions, "random_pure_actions"), _guarded(random_mixed_actions, "random_mixed_actions")
+    random_polymatrix_game = _guarded(random_polymatrix_game, "random_polymatrix_game")
+    blotto_game, ranking_game, sgc_game = _guarded(blotto_game, "blotto_game"), _guarded(ranking_game, "ranking_game"), _guarded(sgc_game, "sgc_game")
+    tournament_game, unit_vector_game = _guarded(tournament_game, "tournament_game"), _guarded(unit_vector_game, "unit_vector_game")
     thorough = ctx.tier == "thorough"
     rng = ctx.rng
     ctx.proofs(["C18/Props.v", "C18/PropsTie.v"])
